@@ -19,27 +19,52 @@ import re
 demo = re.split(r"\s{2,}\(", meta["demo_cmd"])[0].strip()
 if os.environ.get("DEMO_CMD"): demo = os.environ["DEMO_CMD"]
 res = {"property": pid}
-# state: change applied. 1. demo fails
-rc1, o1 = sh(demo, wt); res["demo_with_change_rc"] = rc1
-# 2. revert, demo passes
-rcr, orr = sh("git apply -R %s" % patch, wt)
-assert rcr == 0, orr
-rc2, o2 = sh(demo, wt); res["demo_without_change_rc"] = rc2
-rca, oa = sh("git apply %s" % patch, wt); assert rca == 0, oa
-# 3. build + tests of the touched packages and the baseline packages depending on them
-rcb, ob = sh("go build ./...", wt); res["build_rc"] = rcb
-files = [l[6:] for l in open(patch).read().split("\n") if l.startswith("+++ b/")]
-pkgs = sorted({"./" + os.path.dirname(f) for f in files})
-rct, ot = sh("go test -vet=off -count=1 ./... 2>&1 | grep -v 'no test files' | grep -v '^ok' | grep -v 'build failed' | grep -v '^#' | head -40", wt, 2400)
-res["test_non_ok_lines"] = [l for l in ot.split("\n") if l.startswith("FAIL") or l.startswith("--- FAIL")]
-sh("git checkout -- config", wt)
-print(json.dumps(res, indent=1))
-ok = rc1 != 0 and rc2 == 0 and rcb == 0 and not res["test_non_ok_lines"]
-print("CONFIRMED" if ok else "NOT CONFIRMED")
-print("--- demo with change (tail):\n" + o1[-600:])
-if not ok:
-    print("--- demo without change (tail):\n" + o2[-600:]); print(ot[-1500:])
-    sys.exit(1)
+PHASE = os.environ.get("PHASE", "all")   # confirm: steps 1-3 only (worktree only); check: reuse a confirm result
+cf = os.path.join(wt, "SEED/confirmed.json")
+if PHASE == "check" and os.path.exists(cf):
+    saved = json.load(open(cf))
+    rc1, rc2, rcb, o1, o2, ot = saved["rc1"], saved["rc2"], saved["rcb"], saved["o1"], saved["o2"], saved["ot"]
+    res.update(saved["res"])
+    print(json.dumps(res, indent=1))
+    ok = rc1 != 0 and rc2 == 0 and rcb == 0 and not res["test_non_ok_lines"]
+    print("CONFIRMED" if ok else "NOT CONFIRMED")
+    if not ok:
+        sys.exit(1)
+    SKIP = True
+else:
+    SKIP = False
+if not SKIP:
+  # state: change applied. 1. demo fails
+  rc1, o1 = sh(demo, wt); res["demo_with_change_rc"] = rc1
+  # 2. revert, demo passes
+  rcr, orr = sh("git apply -R %s" % patch, wt)
+  assert rcr == 0, orr
+  rc2, o2 = sh(demo, wt); res["demo_without_change_rc"] = rc2
+  rca, oa = sh("git apply %s" % patch, wt); assert rca == 0, oa
+  # 3. build + tests of the touched packages and the baseline packages depending on them
+  rcb, ob = sh("go build ./...", wt); res["build_rc"] = rcb
+  files = [l[6:] for l in open(patch).read().split("\n") if l.startswith("+++ b/")]
+  pkgs = sorted({"./" + os.path.dirname(f) for f in files})
+  rct, ot = sh("go test -vet=off -count=1 ./... 2>&1 | grep -v 'no test files' | grep -v '^ok' | grep -v 'build failed' | grep -v '^#' | head -40", wt, 2400)
+  res["test_non_ok_lines"] = [l for l in ot.split("\n") if l.startswith("FAIL") or l.startswith("--- FAIL")]
+  # ports of embedded etcd / http test servers clash when several suites run at once: re-run those packages alone
+  flaky = [l for l in res["test_non_ok_lines"] if "pkg/state" in l or "pkg/http" in l]
+  if flaky:
+      rcf, of = sh("go test -vet=off -count=1 ./pkg/state/ ./pkg/http/ 2>&1 | grep -v '^ok' | head", wt, 900)
+      if not [l for l in of.split("\n") if l.startswith("FAIL")]:
+          res["test_non_ok_lines"] = [l for l in res["test_non_ok_lines"] if l not in flaky]
+      sh("git checkout -- config", wt)
+  sh("git checkout -- config", wt)
+  print(json.dumps(res, indent=1))
+  ok = rc1 != 0 and rc2 == 0 and rcb == 0 and not res["test_non_ok_lines"]
+  print("CONFIRMED" if ok else "NOT CONFIRMED")
+  print("--- demo with change (tail):\n" + o1[-600:])
+  if not ok:
+      print("--- demo without change (tail):\n" + o2[-600:]); print(ot[-1500:])
+      sys.exit(1)
+  json.dump({"rc1": rc1, "rc2": rc2, "rcb": rcb, "o1": o1[-600:], "o2": o2[-600:], "ot": ot[-1500:], "res": res}, open(cf, "w"))
+  if PHASE == "confirm":
+      sys.exit(0)
 dst = os.path.join(ROOT, "seeded", name)
 shutil.rmtree(dst, ignore_errors=True)
 shutil.copytree(os.path.join(wt, "SEED"), dst)
